@@ -1,4 +1,5 @@
 import Babylon.Core.Proto
+import Babylon.Core.Trace
 import Babylon.Log.Entry
 import Babylon.Log.Appender
 /-! Line-protocol driver for the logging model (property C20), part A: `LogStreamBuffer` /
@@ -147,4 +148,215 @@ def step (st : St) (line : String) : St × String :=
     | none => (st, "fault append_to_iovec reads unwritten memory")
   | _ => (st, "bad-op")
 
-def main : IO Unit := runLines step ({} : St)
+/-! ## Part B, E-CONC: lock-step replay of a VRT trace of the real appender (harness/c20_vrt.cpp)
+
+`drv_C20 vrt` reads `RUN … END` blocks and prints `ok <n>` / `diverge …` per run.  Every line that
+touches the queue indices / slot versions or is a harness event is mapped to an event of
+`Babylon.Log.App` and must be enabled in the model (`App.step ≠ none`) with the same visible effect:
+  * `t ev wbegin …` then `t rmw add q.push rlx old 1`  →  `reserve` (ticket `old` = tickets so far)
+  * `0 ev cbegin` then `0 rmw add q.push …`            →  `close`
+  * the next store of that thread to a slot version     →  `publish` of its ticket
+  * writer `st q.pop rlx new`                           →  a segment of `new - old` popped items
+  * writer `ev check f fd`, `ev writev …`, `ev dealloc …` are collected; at the writer's next
+    `ld q.pop` (start of the next `try_pop_n`) or at its `exit` the round is closed:
+    `App.step (.round n1 n2 fds)` must be enabled (≤ batch, only published tickets, one descriptor
+    per destination) and the flushes it produces must equal the observed `writev` calls and page
+    returns, destination by destination.
+  * `0 ev cend`: the model has exited;  `0 ev init` after a close: `App.session`. -/
+namespace VrtReplay
+open Babylon.Core Babylon.Log
+
+inductive Pend
+  | write (file size : Nat) (iov : Iov)
+  | close
+
+structure ObsFlush where
+  file : Nat
+  fd : Nat
+  calls : List Iov
+  freed : Option (List Nat)
+
+structure TR where
+  a : App.State
+  inited : Bool := false
+  expectWriter : Bool := false
+  writer : Nat := 0
+  pend : List (Nat × Pend) := []
+  outstanding : List (Nat × Nat) := []     -- thread ↦ its reserved, unpublished ticket
+  base : Nat := 0                           -- ticket of the first item of this session
+  roundStarted : Bool := false
+  segs : Nat := 0
+  n1 : Nat := 0
+  n2 : Nat := 0
+  popIdx : Nat := 0
+  fds : List Nat := []
+  lastCheck : Nat := 0
+  obs : List ObsFlush := []
+  rounds : Nat := 0
+
+def initT (hdr : List String) : TR :=
+  let cap := (hdr.filterMap (fun w => if w.startsWith "cap=" then (w.drop 4).toNat? else none)).headD 1
+  { a := App.init cap }
+
+def lookup (l : List (Nat × α)) (k : Nat) : Option α := (l.find? (·.1 == k)).map (·.2)
+def erase (l : List (Nat × α)) (k : Nat) : List (Nat × α) := l.filter (·.1 != k)
+
+def parseIov (ws : List String) : Except String Iov :=
+  match ws.mapM parsePair with
+  | some l => .ok l
+  | none => .error "bad page:len list"
+
+def closeRound (r : TR) : Except String TR := do
+  match App.step r.a (.round r.n1 r.n2 r.fds) with
+  | none =>
+    throw s!"the model does not enable round {r.n1} {r.n2} fds={r.fds} (batch {r.a.batch}, queue {r.a.queue.length}, ready prefix {(r.a.queue.takeWhile (·.ready)).length}, destinations {r.a.dests.length}, exited {r.a.exited})"
+  | some a1 =>
+    let fl := a1.out.drop r.a.out.length
+    let obs := r.obs.reverse
+    if fl.length ≠ obs.length then
+      throw s!"round {r.rounds}: the model flushes {fl.length} destinations, the implementation {obs.length}"
+    for (m, o) in fl.zip obs do
+      if m.file ≠ o.file ∨ m.fd ≠ o.fd then
+        throw s!"round {r.rounds}: model flush f={m.file} fd={m.fd}, implementation f={o.file} fd={o.fd}"
+      if m.calls ≠ o.calls.reverse then
+        throw s!"round {r.rounds} file {m.file}: writev calls differ: model {m.calls.map List.length} elements, implementation {o.calls.reverse.map List.length}"
+      match o.freed with
+      | none => throw s!"round {r.rounds} file {m.file}: pages written but not returned to the allocator"
+      | some fr =>
+        if fr ≠ m.calls.flatten.map Prod.fst then
+          throw s!"round {r.rounds} file {m.file}: pages returned {fr} ≠ pages written {m.calls.flatten.map Prod.fst}"
+    pure { r with a := a1, roundStarted := false, segs := 0, n1 := 0, n2 := 0, fds := [], obs := [], rounds := r.rounds + 1 }
+
+def stepObs (r : TR) (o : Obs) : Except String TR := do
+  let t := o.tid
+  match o.kind, o.args with
+  | "ev", ["init"] =>
+    if r.inited then
+      if !r.a.exited then throw "initialize() while the previous session has not exited in the model"
+      if !r.a.queue.isEmpty then throw "initialize() with items left in the queue (not modelled)"
+      let a' := App.session r.a.batch (r.a.dests.map (·.file))
+      pure { r with a := { a' with batch := r.a.batch }, base := r.base + r.a.hist.length, expectWriter := true,
+                    pend := [], outstanding := [], roundStarted := false }
+    else pure { r with inited := true, expectWriter := true }
+  | "spawn", [c] =>
+    if r.expectWriter then
+      match c.toNat? with
+      | some c => pure { r with writer := c, expectWriter := false }
+      | none => throw "bad spawn"
+    else pure r
+  | "ev", "wbegin" :: _seq :: file :: size :: iov =>
+    match file.toNat?, size.toNat? with
+    | some file, some size => do
+      let iov ← parseIov iov
+      pure { r with pend := (t, Pend.write file size iov) :: erase r.pend t }
+    | _, _ => throw "bad wbegin"
+  | "ev", "wbegin+" :: iov => do
+    let more ← parseIov iov
+    match lookup r.pend t with
+    | some (.write file size i0) => pure { r with pend := (t, Pend.write file size (i0 ++ more)) :: erase r.pend t }
+    | _ => throw "wbegin+ without wbegin"
+  | "ev", "writev+" :: iov => do
+    let more ← parseIov iov
+    match r.obs with
+    | last :: rest =>
+      match last.calls with
+      | c :: cs => pure { r with obs := { last with calls := (c ++ more) :: cs } :: rest }
+      | [] => throw "writev+ without writev"
+    | [] => throw "writev+ without writev"
+  | "ev", "dealloc+" :: pages =>
+    match pages.mapM String.toNat?, r.obs with
+    | some ps, last :: rest =>
+      match last.freed with
+      | some f0 => pure { r with obs := { last with freed := some (f0 ++ ps) } :: rest }
+      | none => throw "dealloc+ without dealloc"
+    | _, _ => throw "dealloc+ without dealloc"
+  | "ev", ["cbegin"] => pure { r with pend := (t, Pend.close) :: erase r.pend t }
+  | "ev", ["cend"] =>
+    if r.roundStarted then throw "close() returned while the writer's round is still open"
+    if !r.a.exited then throw "close() returned but keep_writing has not exited in the model"
+    pure r
+  | "rmw", ["add", "q.push", _, old, "1"] =>
+    match old.toNat?, lookup r.pend t with
+    | some old, some p =>
+      if old ≠ r.base + r.a.hist.length then
+        throw s!"ticket {old} taken but the model has handed out {r.base + r.a.hist.length} tickets"
+      let ev := match p with
+        | .write file size iov => App.Ev.reserve t file size iov
+        | .close => App.Ev.close
+      match App.step r.a ev with
+      | some a1 => pure { r with a := a1, pend := erase r.pend t, outstanding := (t, old) :: erase r.outstanding t }
+      | none => throw "the model does not enable this reserve / close"
+    | _, _ => throw "a ticket is taken by a thread that is neither in write() nor in close()"
+  | "st", [loc, _, _] =>
+    if loc.startsWith "q.f" ∧ t ≠ r.writer then
+      match lookup r.outstanding t with
+      | some ticket =>
+        let idx := ticket - r.base - r.a.consumed.length
+        if ticket < r.base + r.a.consumed.length then throw s!"ticket {ticket} published after it was popped"
+        match App.step r.a (.publish idx) with
+        | some a1 => pure { r with a := a1, outstanding := erase r.outstanding t }
+        | none => throw s!"the model does not enable publish of queue position {idx}"
+      | none => throw s!"thread {t} stores a slot version without holding a ticket"
+    else if loc == "q.pop" ∧ t = r.writer then
+      match (o.args.getD 2 "").toNat? with
+      | some new =>
+        let cnt := new - r.popIdx
+        if r.segs = 0 then pure { r with n1 := cnt, segs := 1, popIdx := new }
+        else if r.segs = 1 then pure { r with n2 := cnt, segs := 2, popIdx := new }
+        else throw "more than two ring segments popped in one round"
+      | none => throw "bad q.pop store"
+    else pure r
+  | "ld", "q.pop" :: _ =>
+    if t = r.writer ∧ r.inited then
+      let r ← if r.roundStarted then closeRound r else pure r
+      pure { r with roundStarted := true }
+    else pure r
+  | "exit", [] =>
+    if t = r.writer ∧ r.inited then
+      let r ← if r.roundStarted then closeRound r else pure r
+      if !r.a.exited then throw "the writer thread exits but the model has not consumed the stop marker"
+      pure r
+    else pure r
+  | "ev", ["check", f, fd] =>
+    match f.toNat?, fd.toNat? with
+    | some f, some fd => pure { r with fds := r.fds ++ [fd], lastCheck := f }
+    | _, _ => throw "bad check"
+  | "ev", "writev" :: f :: fd :: iov => do
+    let iov ← parseIov iov
+    let some fd := fd.toNat? | throw "bad writev fd"
+    let f := (f.toNat?).getD r.lastCheck          -- `-1`: no descriptor, the destination is the one just checked
+    match r.obs with
+    | last :: rest =>
+      if last.file = f ∧ last.freed.isNone then
+        if last.fd ≠ fd then throw s!"file {f} written through two descriptors in one round"
+        pure { r with obs := { last with calls := iov :: last.calls } :: rest }
+      else pure { r with obs := ⟨f, fd, [iov], none⟩ :: r.obs }
+    | [] => pure { r with obs := [⟨f, fd, [iov], none⟩] }
+  | "ev", "dealloc" :: pages =>
+    match pages.mapM String.toNat?, r.obs with
+    | some ps, last :: rest =>
+      if last.freed.isSome then throw "two page returns for one destination in one round"
+      pure { r with obs := { last with freed := some ps } :: rest }
+    | _, _ => throw "page return by the writer without a preceding writev"
+  | "VERDICT", _ => throw s!"VRT verdict {o.args}"
+  | _, _ => pure r
+
+def finalT (r : TR) : Except String Unit := do
+  if r.roundStarted then throw "trace ends inside a round"
+  if !r.pend.isEmpty then throw "trace ends inside write() / close()"
+  if !r.a.exited then throw "trace ends before keep_writing exited in the model"
+  -- the conclusions of `appender_each_once_ordered`, evaluated on the model state this trace drove
+  let pre := r.a.hist.takeWhile (·.size != 0)
+  for d in r.a.dests do
+    let w := App.written r.a d.file
+    let want := (pre.filter (·.file == d.file)).flatMap (·.iov)
+    if w.take want.length ≠ want then
+      throw s!"model self-check: file {d.file} does not start with its entries ticketed before the stop marker"
+  pure ()
+
+end VrtReplay
+
+def main (args : List String) : IO Unit := do
+  if args == ["vrt"] then
+    Babylon.Core.replayLoop (← IO.getStdin) VrtReplay.initT VrtReplay.stepObs VrtReplay.finalT
+  else runLines step ({} : St)
